@@ -49,6 +49,18 @@ class VirtualFile(object):
         arbitrary bytes are not an empty cassette.
         """
         buffer = self.source_file.get_buffer()
+
+        # A buffer that is tape blocks from end to end is a cassette, even if the data of its
+        # files happens to look like a disk directory at the offsets a disk reader looks at
+        cassette = CassetteFile(buffer=buffer)
+        if cassette.is_complete_tape():
+            try:
+                cassette_files = cassette.list_files()
+                if cassette_files:
+                    return cassette_files, VirtualFileType.CASSETTE
+            except (VirtualFileValidationError, ValueError):
+                pass
+
         disk_files = None
         try:
             disk_files = DiskFile(buffer=buffer).list_files()
